@@ -751,6 +751,10 @@ Expr={expr}"""
                 return new_collection(expr.Isin(self, values=values))
             raise NotImplementedError(f"Passing a {typename(type(values))!r} to `isin`")
 
+        if isinstance(self, DataFrame) and isinstance(values, dict):
+            # Matched against the column labels: the optimizer has to see it
+            return new_collection(expr.Isin(self, values=values))
+
         # We wrap values in a delayed for two reasons:
         # - avoid serializing data in every task
         # - avoid cost of traversal of large list in optimizations
